@@ -121,6 +121,8 @@ FLOORS = {
     "thorough": {"evaluations": 60000, "distinct_nontrivial": 50000, "counters": {k: v * 15 for k, v in _QUICK_COUNTERS.items()},
                  "sets": {"pipelines": 12000}, "max_skipped_fraction": 0.15},
 }
+FLOORS["quick"]["counters"] = dict(_QUICK_COUNTERS, op_repartition_grid=300)
+FLOORS["thorough"]["counters"]["op_repartition_grid"] = 1400
 EXHAUSTIVE_SPACE = None
 LEVEL_NOTE = ("trusts CPython's builtins/itertools/functools/fractions as reference and the harness' own multiset comparison; "
               "operators given to fold/foldby/reduction are associative with identity initials by construction")
@@ -964,6 +966,13 @@ def cases(tier, seed):
     n = 9000 if tier == "quick" else 150000
     for i in range(n):
         yield {"op": FORCED[i % len(FORCED)], "cs": rng.randrange(2 ** 31)}
+    # repartition(npartitions=) over a grid of (current, requested) partition counts: the new boundaries come from
+    # floating-point arithmetic on the two counts, so many pairs have to be seen, not a handful of small ones
+    top = 34 if tier == "quick" else 130
+    for N in range(1, top + 1):
+        for m in range(1, N + 3):
+            if tier == "quick" or N <= 48 or rng.random() < 0.25:
+                yield {"op": "repartition-grid", "N": N, "m": m, "k": rng.choice((1, 1, 2, 3)), "lazy": rng.random() < 0.4}
 
 
 _TMPFS = None
@@ -1369,8 +1378,48 @@ def _start_kind(rng, forced, attempt=0):
     return rng.choice(G.KINDS)
 
 
+def _run_repartition_grid(case, ctx):
+    import dask.bag as db
+
+    N, m, k = case["N"], case["m"], case["k"]
+    ctx.op("repartition-grid")
+    ctx.count("op_repartition_grid")
+    L = list(range(N * k))
+    b = db.from_sequence(L, partition_size=k)
+    if b.npartitions != N:
+        ctx.reject("from_sequence gave %d partitions, wanted %d" % (b.npartitions, N))
+        return
+    if case["lazy"]:
+        b, L = b.map(inc), [x + 1 for x in L]
+    ctx.sig = ("repartition-grid", N, m, k, case["lazy"])
+    ctx.nontrivial = N > 1 and m > 1
+    feat = "shrink" if m < N else ("grow" if m > N else "same")
+    try:
+        r = b.repartition(npartitions=m)
+        got = r.compute(scheduler="sync")
+        parts = G.parts_of(r)
+    except Exception as ex:  # noqa: BLE001
+        ctx.exception(ex, prefix="repartition:npartitions&%s" % feat)
+        return
+    if got != L:
+        missing = len(L) - len(got)
+        ctx.violation("repartition:npartitions&%s:%s" % (feat, "elements-lost" if missing > 0 else "values"),
+                      "repartition %d -> %d: %d elements in, %d out" % (N, m, len(L), len(got)))
+    elif [x for p_ in parts for x in p_] != L:
+        ctx.violation("repartition:npartitions&%s:partitions" % feat, "partitions do not concatenate to the bag")
+    elif r.npartitions != len(parts):
+        ctx.violation("repartition:npartitions&%s:npartitions" % feat, "declares %d partitions, %d computed" % (r.npartitions, len(parts)))
+    elif r.npartitions != m:
+        # observation only: the statement is about the elements. (15 -> 13 gives 14 partitions on the pinned tree: the
+        # boundaries int(i * 15 / 13) stop short of 15 and the closing guard appends one more.)
+        ctx.count("repartition_grid_other_partition_count")
+    ctx.sample = {"from": N, "to": m, "elements": len(L)}
+
+
 def run_case(case, ctx):
     forced = case["op"]
+    if forced == "repartition-grid":
+        return _run_repartition_grid(case, ctx)
     rng = random.Random(case["cs"])
     for attempt in range(3):
         kind = _start_kind(rng, forced, attempt)
